@@ -15,6 +15,7 @@ package proxy
 //@ props C04 C16
 //@ func fetcher.shouldResponseBeCached
 //@   nopanic
+//@   pure
 //@   requires f.cfg != nil && aset(f.cfg.Proxy.CachePolicy.IgnoreCacheControl.value) && resp != nil && resp.Request != nil && upstreamHd != nil
 //@   ensures [C04] result ==> resp.StatusCode == 200 && resp.Request.Method == "GET"
 //@   ensures [C04] result ==> !upstreamHd.Range.value.some
@@ -23,8 +24,123 @@ package proxy
 
 // ---------------------------------------------------------------- Range answers (C07)
 
-// Not yet verified: the fetch path is used here only on the (discouraged)
-// retry_on_invalid_range branch.
+// ---------------------------------------------------------------- the fetch path (C05 C06 C09)
+
+// Ghost vocabulary of the origin side: upcalls / upfails count the requests handed to
+// (*http.Client).Do and those that failed; uplast is the response the last one returned.
+
+// A usable fetch result: a stored entry with metadata and an open body, or the origin's own response.
+//@ spec func specFetchShape(f any) bool = (f.Type == 0 || f.Type == 1) && (f.Type == 0 ==> f.Cached.Entry != nil && allocated(f.Cached.Entry) && f.Cached.Entry.Metadata != nil && allocated(f.Cached.Entry.Metadata) && f.Cached.Entry.Data != nil) && (f.Type == 1 ==> f.Direct.Response != nil && allocated(f.Direct.Response) && f.Direct.Response.Body != nil)
+// net/http never hands out a header map with an empty value list.
+//@ spec func specHdrOK(h any) bool = h != nil && (forall k key :: in(h, k) ==> len(h[k]) > 0)
+//@ spec func specEntryShape(e ptr) bool = e != nil && allocated(e) && e.Metadata != nil && allocated(e.Metadata) && e.Data != nil
+//@ spec func specFetcher(f ptr) bool = f.cache != nil && f.cfg != nil && aset(f.cfg.Proxy.CachePolicy.IgnoreCacheControl.value) && aset(f.cfg.Proxy.CachePolicy.DefaultMaxAge.value) && aset(f.cfg.Proxy.CachePolicy.ForceDefaultMaxAge.value) && aset(f.cfg.Proxy.UpstreamDefaultHttps.value)
+
+// A 304 renews the stored entry: its lifetime is set to now + the configured default,
+// nothing else in the record is touched, and the stored body is handed out again.
+//@ props C06 C09 C16
+//@ func fetcher.handleUpstream304
+//@   nopanic
+//@   assigns cache. map_map_cache.CacheKey atomic.Int64 ghost:mapsum ghost:fsinode ghost:jsize ghost:jexp ghost:handleinode
+//@   requires specFetcher(f) && req != nil
+//@   ghost callsite-requires [C06] UpdateMetadata keyid(arg_key) == keyid(key)
+//@   ghost callsite-requires [C06] Get keyid(arg_key) == keyid(key)
+//@   ensures [C09] err == nil ==> specEntryShape(cached)
+//@   ensures [C09] err != nil ==> cached == nil && iserr(err, ErrUpdateCacheMetadata) && !iserr(err, ErrSendRequestFailed) && !iserr(err, ErrCacheResponseFailed)
+
+//@ props C06 C16
+//@ func fetcher.handleUpstream304$1
+//@   nopanic
+//@   ghost holds shard
+//@   assigns EntryMetadata_MetadataT_.Expires EntryMetadata_proxy.cachedRequestInfo_.Expires
+//@   requires meta != nil && specFetcher(f)
+//@   ensures [C06] meta.Expires == now + cfgval(f.cfg.Proxy.CachePolicy.DefaultMaxAge)
+
+// A cacheable 200 is stored under the request's key with the validators and headers of
+// this response; the entry handed back is the stored one.  Anything else is not stored.
+//@ props C04 C06 C09 C16
+//@ func fetcher.handleUpstream200
+//@   nopanic
+//@   assigns cache. map_map_cache.CacheKey atomic.Int64 ghost:mapsum ghost:fsinode ghost:jsize ghost:jexp ghost:handleinode ghost:isize ghost:icontent
+//@   requires specFetcher(f) && req != nil && resp != nil && resp.Request != nil && resp.Header != nil && resp.Body != nil && upstreamHd != nil
+//@   ghost callsite-requires [C06] Cache keyid(arg_key) == keyid(key)
+//@   ghost callsite-requires [C06] Cache arg_metadata.Header == resp.Header
+//@   ghost callsite-requires [C06] Cache in(resp.Header, "Etag") && len(resp.Header["Etag"]) > 0 ==> sid(arg_metadata.ETag) == sid(resp.Header["Etag"][0])
+//@   ghost callsite-requires [C06] Cache !in(resp.Header, "Etag") ==> len(arg_metadata.ETag) == 0
+//@   ghost callsite-requires [C06] Cache in(resp.Header, "Last-Modified") && len(resp.Header["Last-Modified"]) > 0 && httptime_ok(sid(resp.Header["Last-Modified"][0])) ==> arg_metadata.LastModified == httptime_val(sid(resp.Header["Last-Modified"][0]))
+//@   ghost callsite-requires [C06] Cache readall(arg_data) == readall(resp.Body)
+//@   ensures [C09] err == nil && cached != nil ==> specEntryShape(cached)
+//@   ensures [C09] err != nil ==> cached == nil && iserr(err, ErrCacheResponseFailed) && !iserr(err, ErrSendRequestFailed) && !iserr(err, ErrUpdateCacheMetadata)
+//@   ensures [C04] cached != nil ==> resp.StatusCode == 200 && resp.Request.Method == "GET"
+
+// 416 from the origin: once retried without the Range header (unless noRetry).
+//@ props C09 C16
+//@ func fetcher.handleUpstream416
+//@   nopanic
+//@   assigns HeaderDirectives http.Request url.URL http.Response map_ cache. atomic.Int64 ghost:upstream ghost:mapsum ghost:fsinode ghost:jsize ghost:jexp ghost:handleinode ghost:isize ghost:icontent
+//@   requires specFetcher(f) && req != nil && req.URL != nil && req.Header != nil && resp != nil && resp.Body != nil && clientHd != nil
+//@   ensures [C09] err == nil && cached != nil ==> specEntryShape(cached)
+//@   ensures [C09] err != nil ==> cached == nil && (iserr(err, ErrCacheResponseFailed) || iserr(err, ErrUpdateCacheMetadata) || upfails > old(upfails))
+//@   ensures upfails >= old(upfails) && upcalls >= old(upcalls)
+//@   ensures resp.Body != nil
+
+// 200 is stored when cacheable, 304 renews the stored entry, 416 is retried once;
+// every other answer is neither stored nor does it touch the cache.
+//@ props C06 C09 C16
+//@ func fetcher.handleUpstreamResponse
+//@   nopanic
+//@   assigns HeaderDirectives http.Request url.URL http.Response map_ cache. atomic.Int64 ghost:upstream ghost:mapsum ghost:fsinode ghost:jsize ghost:jexp ghost:handleinode ghost:isize ghost:icontent
+//@   requires specFetcher(f) && req != nil && req.URL != nil && req.Header != nil && resp != nil && resp.Request != nil && specHdrOK(resp.Header) && resp.Body != nil && clientHd != nil
+//@   ensures [C09] err == nil && cached != nil ==> specEntryShape(cached)
+//@   ensures [C09] err != nil ==> cached == nil && (iserr(err, ErrCacheResponseFailed) || iserr(err, ErrUpdateCacheMetadata) || upfails > old(upfails))
+//@   ensures upfails >= old(upfails) && upcalls >= old(upcalls)
+//@   ensures resp.Body != nil
+//@   ensures [C06] old(resp.StatusCode) != 200 && old(resp.StatusCode) != 304 && old(resp.StatusCode) != 416 ==> cached == nil && err == nil && unchanged("cache.") && upcalls == old(upcalls)
+
+//@ props C09 C16
+//@ func fetcher.sendRequestToUpstream
+//@   nopanic
+//@   assigns http.Request url.URL new:http.Response map_ ghost:upstream
+//@   requires specFetcher(f) && req != nil && req.URL != nil && req.Header != nil
+//@   ensures upcalls == old(upcalls) + 1
+//@   ensures result2 != nil ==> result0 == nil && iserr(result2, ErrSendRequestFailed) && upfails == old(upfails) + 1
+//@   ensures result2 == nil ==> result0 != nil && allocated(result0) && !old(allocated(result0)) && result0.Body != nil && specHdrOK(result0.Header) && result0.Request == req && result0 == uplast && upfails == old(upfails)
+
+// One origin fetch whose answer is stored when it may be.  It fails only when the origin
+// could not be reached; trouble on the cache side (store refused or failed, entry gone
+// before a 304 could renew it) is reported as ErrNotCacheable so that the caller answers
+// the client with a fetch of its own.
+//@ props C05 C06 C09 C16
+//@ func fetcher.fetchUpstream
+//@   nopanic
+//@   assigns HeaderDirectives http.Request url.URL http.Response map_ cache. atomic.Int64 ghost:upstream ghost:mapsum ghost:fsinode ghost:jsize ghost:jexp ghost:handleinode ghost:isize ghost:icontent
+//@   requires specFetcher(f) && req != nil && req.URL != nil && req.Header != nil && clientHd != nil
+//@   ensures [C09] result1 == nil ==> specFetchShape(result0)
+//@   ensures [C09] result1 != nil ==> iserr(result1, ErrNotCacheable) || upfails > old(upfails)
+//@   ensures upfails >= old(upfails) && upcalls >= old(upcalls) + 1
+//@   ensures [C05] result1 == nil && result0.Type == 1 ==> result0.Direct.Response == uplast && !old(allocated(result0.Direct.Response))
+
+// A fetch that bypasses the cache: exactly one origin request, whose response is handed back.
+//@ props C05 C09 C16
+//@ func fetcher.fetchDirectlyFromUpstream
+//@   nopanic
+//@   assigns http.Request url.URL new:http.Response map_ ghost:upstream
+//@   requires specFetcher(f) && req != nil && req.URL != nil && req.Header != nil
+//@   ensures upcalls == old(upcalls) + 1
+//@   ensures [C09] result1 != nil ==> upfails == old(upfails) + 1
+//@   ensures [C09] result1 == nil ==> specFetchShape(result0) && result0.Type == 1 && upfails == old(upfails)
+//@   ensures [C05] result1 == nil ==> result0.Direct.Response == uplast && !old(allocated(result0.Direct.Response))
+
+//@ props C05 C09 C16
+//@ func fetcher.handleCacheMiss
+//@   nopanic
+//@   assigns HeaderDirectives http.Request url.URL http.Response map_ cache. atomic.Int64 ghost:upstream ghost:mapsum ghost:fsinode ghost:jsize ghost:jexp ghost:handleinode ghost:isize ghost:icontent
+//@   requires specFetcher(f) && req != nil && req.URL != nil && req.Header != nil && clientHd != nil
+//@   ensures [C09] result1 == nil ==> specFetchShape(result0)
+//@   ensures [C09] result1 != nil ==> iserr(result1, ErrNotCacheable) || upfails > old(upfails)
+//@   ensures upfails >= old(upfails) && upcalls >= old(upcalls) + 1
+
+// Not yet verified.
 //@ func fetcher.dedupFetch
 //@   trusted
 //@   assigns HeaderDirectives http_Request http.Request map_ cache.EntryMetadata cache.MemoryCache cache.FileCache http.Response
@@ -94,7 +210,6 @@ package proxy
 //@   ensures [C03] cacheStatus.hitStatus == 2 <==> sid(resphdr(r)["X-Cache"][len(resphdr(r)["X-Cache"])-1]) == sid("HIT")
 //@   ensures [C03] cached.some && (cacheStatus.hitStatus == 2 || cacheStatus.hitStatus == 1) && (decval(sid(cached.value.Metadata.Object.Header["Age"][0])) < 4000000000 || !in(cached.value.Metadata.Object.Header, "Age")) && now - cached.value.Metadata.TimeWritten < 9000000000000000000 && cached.value.Metadata.TimeWritten - now < 9000000000000000000 ==> decval(sid(resphdr(r)["Age"][0])) >= (now - cached.value.Metadata.TimeWritten) / 1000000000
 
-
 // ---------------------------------------------------------------- request handling (C16)
 
 // What ParseHeaderDirective establishes about a parsed Range / If-Range and every later step keeps.
@@ -129,17 +244,27 @@ package proxy
 //@ func changeRequestToTarget
 //@   assigns http.Request url.URL
 //@   requires req != nil && req.URL != nil
-//@   ensures req.Header == old(req.Header)
+//@   ensures req.Header == old(req.Header) && req.ctx == old(req.ctx)
 //@   ensures [C08] result == nil ==> req.URL != nil && sid(req.URL.Path) == old(sid(req.URL.Path)) && sid(req.URL.RawPath) == old(sid(req.URL.RawPath)) && sid(req.URL.RawQuery) == old(sid(req.URL.RawQuery)) && sid(req.Method) == old(sid(req.Method))
 
 // None of the hop-by-hop header fields is left after removeHopByHopHeaders.
 //@ props C08 C16
 //@ func removeHopByHopHeaders
+//@   assigns map_
 //@   requires header != nil
+//@   ensures old(specHdrOK(header)) ==> specHdrOK(header)
+//@   loop 1 invariant old(specHdrOK(header)) ==> specHdrOK(header)
+//@   loop 2 invariant old(specHdrOK(header)) ==> specHdrOK(header)
 //@   ensures [C08] !in(header, "Connection") && !in(header, "Proxy-Connection") && !in(header, "Keep-Alive") && !in(header, "Proxy-Authenticate") && !in(header, "Proxy-Authorization") && !in(header, "Te") && !in(header, "Trailer") && !in(header, "Transfer-Encoding") && !in(header, "Upgrade")
 
 // The response handed back is the origin's answer to this request: the client
 // used does not follow redirects on its own.
 //@ props C08 C16
 //@ func sendRequestToTarget
+//@   nopanic
+//@   assigns http.Request url.URL new:http.Response map_ ghost:upstream
 //@   requires req != nil && req.URL != nil && req.Header != nil
+//@   ensures upcalls == old(upcalls) + 1
+//@   ensures result1 != nil ==> result0 == nil && iserr(result1, ErrSendRequestFailed) && upfails == old(upfails) + 1
+//@   ensures result1 == nil ==> result0 != nil && allocated(result0) && !old(allocated(result0)) && result0.Body != nil && specHdrOK(result0.Header) && result0.Request == req && result0 == uplast && upfails == old(upfails)
+//@   ensures upcancels >= old(upcancels) && (upcancels > old(upcancels) ==> result1 != nil && ctxcancellable(old(req.ctx)))
